@@ -32,7 +32,11 @@ def main():
             if not hasattr(mod, 'replay'):
                 print('replay not supported for %s' % a.pid)
                 return 2
-            return mod.replay(ctx, rp)
+            try:
+                return mod.replay(ctx, rp)
+            finally:
+                import shutil
+                shutil.rmtree(ctx.scratch, ignore_errors=True)
         mod.run(ctx)
     except Exception:
         # a crash of the machinery is not a verdict about the driver: report it loudly, fail the run
